@@ -264,7 +264,7 @@ def ops_for(T, names, model_idx, profile, sigma, foreign=None):
     if 'X' in kinds:
         f = foreign or 'fifths'
         ops += [('Ax', 'foreign', f), ('Ax', 'nonelement'), ('Ax', 'none'), ('Rx', 'detached', f), ('Rx', 'none'),
-                ('Rx', 'others', sigma[0]),
+                ('Rx', 'others', sigma[0]), ('Ax', 'others', sigma[0]), ('Ax', 'others', sigma[-1]),
                 ('Px', 'old-missing', f), ('Px', 'new-bad')]
         for a in sigma[:1]:
             ops.append(('Fx', a, 99))
